@@ -297,7 +297,29 @@ func tracerCase(r *rand.Rand, hist map[string]int) (string, any, string, bool) {
 		}
 	}
 	g := fmt.Sprintf("(%d, %d, [\n  %s])", nr, nw, strings.Join(steps, ";\n  "))
-	return g, map[string]any{"level": "tracer", "ops": in}, fail, pipelined
+	closeObs := "None"
+	if fail == "" && r.Intn(2) == 0 {
+		// the node is closed with whatever is still waiting: every pending request must get a dropped-packet error
+		func() {
+			defer func() {
+				if p := recover(); p != nil {
+					fail = fmt.Sprintf("Tracer.Close panicked: %v", p)
+				}
+			}()
+			w.answers = nil
+			w.tr.Close()
+			closeObs = "(Some " + gal.List(w.answers) + ")"
+			in = append(in, "Close")
+			hist["close"]++
+			if len(w.answers) > 0 {
+				hist["close-with-waiting-requests"]++
+			}
+			if n := w.tr.VerifLen(); n != 0 && fail == "" {
+				fail = fmt.Sprintf("the tracer still holds %d entries after Close", n)
+			}
+		}()
+	}
+	return "(" + g + ", " + closeObs + ")", map[string]any{"level": "tracer", "ops": in}, fail, pipelined
 }
 
 func runC02(seed int64, n int, tier string) *Result {
@@ -305,12 +327,12 @@ func runC02(seed int64, n int, tier string) *Result {
 	res := &Result{
 		Prop:     "C02",
 		Requires: []string{"Packet.Writer", "Node.Tracer", "Node.CheckTracer"},
-		CaseType: "c2case",
-		OkFn:     "c2ok_spec",
+		CaseType: "c2ccase",
+		OkFn:     "c2ok_close",
 		Rule: "tracer level: a real packet.Tracer with 1-2 readers (fed by real upstream writers) and 1-4 writers (each with or without a downstream reader); 8-32 calls chosen at random among " +
 			"the next call of each forward loop (Read; Link of 0-4 derived packets; Write of each to its own writer, or Write(nil, request) when nothing is derived; with two readers also the many-to-one shape: one packet linked to the requests of both readers, then written) and the answers of downstream readers " +
 			"(payload, error, None) delivered through Tracer.Receive, in any interleaving (so answers arrive while a later request is between Read and Link); observed after every call: the answers handed to each reader (outbound hook), " +
-			"Tracer.Reads / Tracer.Writes, panics; node level (every fourth case): see the node oracle; during every node-level run the calls the REAL nodes make on their tracers are recorded (verif hook under the tracer's lock) and each tracer's call sequence, with the answers handed out during each call, goes through the same checker (discipline, model, specification); non-trivial = two requests of one reader in flight at once; distinct by rendered case",
+			"Tracer.Reads / Tracer.Writes, panics; half of the sequences end with Tracer.Close while requests are still waiting: the answers handed out during the close (compared per reader) and the emptiness of the tracer afterwards; node level (every fourth case): see the node oracle; during every node-level run the calls the REAL nodes make on their tracers are recorded (verif hook under the tracer's lock) and each tracer's call sequence, with the answers handed out during each call, goes through the same checker (discipline, model, specification); non-trivial = two requests of one reader in flight at once; distinct by rendered case",
 		Hist: map[string]int{},
 	}
 	for i := 0; i < n; i++ {
@@ -321,7 +343,7 @@ func runC02(seed int64, n int, tier string) *Result {
 			recCases, recOps := rec.stop()
 			if fail == "" {
 				for k, rc := range recCases { // what the real nodes did on their tracers, through the same checker
-					res.Cases = append(res.Cases, Case{Gallina: rc, Input: map[string]any{"level": "recorded from a real node", "ops": recOps[k]}, Nontrivial: len(recOps[k]) > 6})
+					res.Cases = append(res.Cases, Case{Gallina: "(" + rc + ", None)", Input: map[string]any{"level": "recorded from a real node", "ops": recOps[k]}, Nontrivial: len(recOps[k]) > 6})
 					res.Hist["recorded-tracers"]++
 					res.Hist["recorded-calls"] += len(recOps[k])
 				}
